@@ -1954,7 +1954,10 @@ lyd_diff_is_redundant(struct lyd_node *diff)
         if (diff->schema->nodetype & LYD_NODE_TERM) {
             /* check whether at least the default flags are different */
             meta = lyd_find_meta(diff->meta, mod, "orig-default");
-            assert(meta);
+            if (!meta) {
+                /* not a node created by a diff of default flags, keep it */
+                return 0;
+            }
             str = lyd_get_meta_value(meta);
 
             /* if previous and current dflt flags are the same, this node is redundant */
